@@ -381,6 +381,49 @@ def c20(ctx):
                       "`run --output-format json` and `check`; non-trivial = at least 5 (field, channel) providers in one invocation")
 
 
+def selftest():
+    """Demonstrates the binding between specification and code (not part of any verdict):
+    (a) a recorded trace with one corrupted field is rejected by the property invariant,
+    (b) a recorded trace with one event removed is not accepted (not fully consumed),
+    (c) the recognizer / soundness / protocol modules refute their named deviations (done inside the checks as vacuity guards)."""
+    import copy
+    ctx = Ctx("selftest", "quick", 1)
+    ctx.build()
+    path = os.path.join(ctx.work, "t.ndjson")
+    ctx.vh_json(["sem", "pair", 7, 300, path])
+    from .core import read_ndjson
+    lines = read_ndjson(path)
+    ok = True
+    r0 = ctx.tlc_trace("MachineTrace", "MachineTrace_C07.cfg", path, label="selftest: untouched trace")
+    print("untouched trace: %d violations (expected 0)" % len(r0["viols"]))
+    ok &= len(r0["viols"]) == 0
+    # (a) corrupt one posting amount of one successful statement
+    bad = copy.deepcopy(lines)
+    for l in bad:
+        if l["e"] == "stmt" and l["st"] == "ok" and len(l["post"]) >= 2:
+            l["post"][0][2] += 1
+            break
+    p2 = os.path.join(ctx.work, "t_corrupt.ndjson")
+    open(p2, "w").write("\n".join(json.dumps(x) for x in bad) + "\n")
+    r1 = ctx.tlc_trace("MachineTrace", "MachineTrace_C07.cfg", p2, label="selftest: one amount corrupted")
+    print("one logged amount + 1: %d violations reported by C07_Flow (expected >= 1)" % len(r1["viols"]))
+    ok &= len(r1["viols"]) >= 1
+    # (b) remove one outcome event: the trace must not be accepted
+    cut = [x for i, x in enumerate(lines) if not (x["e"] == "outcome" and i > 10 and i < 40)]
+    p3 = os.path.join(ctx.work, "t_cut.ndjson")
+    open(p3, "w").write("\n".join(json.dumps(x) for x in cut) + "\n")
+    try:
+        ctx.tlc_trace("MachineTrace", "MachineTrace_C07.cfg", p3, label="selftest: outcome events removed")
+        print("outcome events removed: ACCEPTED (unexpected)")
+        ok = False
+    except Infra as e:
+        print("outcome events removed: rejected as expected (%s)" % str(e).splitlines()[0][:80])
+    import shutil
+    shutil.rmtree(ctx.work, ignore_errors=True)
+    print("selftest", "passed" if ok else "FAILED")
+    return 0 if ok else 2
+
+
 def replay(path):
     rp = json.load(open(path))
     prop = rp.get("property", "C00")
